@@ -1,0 +1,16 @@
+//go:build verif
+
+package meter
+
+// SimYield, when non-nil, is called by the ticker goroutine of a
+// progressMeter right after it received a tick and before it takes the
+// meter's lock. It exists only in builds with the `verif` tag and lets a
+// deterministic-simulation harness decide the interleaving of the ticker
+// with the worker.
+var SimYield func(point string)
+
+func simYield(point string) {
+	if f := SimYield; f != nil {
+		f(point)
+	}
+}
